@@ -121,10 +121,11 @@ class Run:
         if self.lean_dir: return self.lean_dir
         gd = os.path.join(self.scratch, "Gen")
         d, objs, _, _ = self.objs("plain")
-        names, self.genvals = gen.generate(gd, scratch=self.scratch, objs=objs, with_abi=getattr(self, "with_abi", False))
+        names, self.genvals = gen.generate(gd, scratch=self.scratch, objs=objs, with_abi=getattr(self, "with_abi", False), with_statics=getattr(self, "with_statics", False))
         changed = []
-        if "Abi.lean" not in names and os.path.exists(os.path.join(LEAN, "Xc", "Gen", "Abi.lean")):
-            shutil.copy(os.path.join(LEAN, "Xc", "Gen", "Abi.lean"), os.path.join(gd, "Abi.lean"))
+        for opt in ("Abi.lean", "Statics.lean"):
+            if opt not in names and os.path.exists(os.path.join(LEAN, "Xc", "Gen", opt)):
+                shutil.copy(os.path.join(LEAN, "Xc", "Gen", opt), os.path.join(gd, opt))
         for n in names:
             ref = os.path.join(LEAN, "Xc", "Gen", n)
             if not os.path.exists(ref) or open(ref).read() != open(os.path.join(gd, n)).read():
@@ -368,7 +369,7 @@ def cmd_setup():
     # regenerate the reference Gen from the tree as it is now, then build everything
     d = cbuild.mk_scratch("setup")
     try:
-        gen.generate(os.path.join(LEAN, "Xc", "Gen"), scratch=None, with_abi=True)
+        gen.generate(os.path.join(LEAN, "Xc", "Gen"), scratch=None, with_abi=True, with_statics=True)
     finally:
         shutil.rmtree(d, ignore_errors=True)
     with lean_lock():
